@@ -6,14 +6,15 @@ Replay files written by the runs are moved to /verif/work/seed-replays/ (not kep
 import json, os, subprocess, sys, time, glob, shutil, re
 
 ROOT = os.path.dirname(os.path.dirname(os.path.abspath(__file__)))
+REPO = os.environ.get("GBSIM_REPO", "/repo")
 
 def main():
     patch = os.path.abspath(sys.argv[1])
     props = sys.argv[2:]
-    st = subprocess.run(["git", "-C", "/repo", "status", "--porcelain", "--untracked-files=no"], capture_output=True, text=True).stdout.strip()
+    st = subprocess.run(["git", "-C", REPO, "status", "--porcelain", "--untracked-files=no"], capture_output=True, text=True).stdout.strip()
     if st:
         print("refusing: /repo has uncommitted changes", file=sys.stderr); sys.exit(2)
-    r = subprocess.run(["git", "-C", "/repo", "apply", patch], capture_output=True, text=True)
+    r = subprocess.run(["git", "-C", REPO, "apply", patch], capture_output=True, text=True)
     if r.returncode != 0:
         print(json.dumps({"patch": patch, "error": "patch does not apply: " + r.stderr[:300]})); sys.exit(2)
     results = {}
@@ -37,7 +38,7 @@ def main():
             for f in set(glob.glob(os.path.join(ROOT, "replays", p + "-*.json"))) - before:
                 shutil.move(f, os.path.join(ROOT, "work", "seed-replays", os.path.basename(f)))
     finally:
-        subprocess.run(["git", "-C", "/repo", "checkout", "--", "."], check=False)
+        subprocess.run(["git", "-C", REPO, "checkout", "--", "."], check=False)
     print(json.dumps({"patch": patch, "results": results}))
 
 main()
